@@ -74,6 +74,9 @@ def simOp (net : Net) (toks : List String) : Option (Net × String) :=
   | ["create", n] => (nat n).map fun n => let (net', e) := create net n; (net', errStr e)
   | ["join", j, p] => do let j ← nat j; let p ← nat p; let (net', e) := join net j p; pure (net', errStr e)
   | ["joinbegin", j, p] => do let j ← nat j; let p ← nat p; let (net', e) := joinBegin net j p; pure (net', errStr e)
+  | ["jointasks", j] => (nat j).map fun j => (joinTasks net j, "pending:FinishJoin(true,false)")
+  | ["joinadvise", j] => (nat j).map fun j => (joinAdvise net j, "pending:FinishJoin(false,true)")
+  | ["joinrelease", j] => (nat j).map fun j => (joinRelease net j, "ok")
   | ["joinend", j] => (nat j).map fun j => (joinEnd net j, "ok")
   | ["setpred", n, v] => (nat n).map fun n => (net.upd n (fun nd => { nd with pred := v.toNat? }), "ok")
   | ["setstate", n, st] => do
